@@ -111,6 +111,7 @@ def strategy():
         'driver': st.integers(0, 2).map(lambda k: 'dict' if k == 0 else 'file'),
         'key': st.integers(0, 2),
         'flaky': st.integers(0, 3),
+        'split': st.integers(0, 3),
         'amp': worldops.size_amp(none=50, sizes=(64, 70, 127, 130, 260)),
         'processors': st.lists(item, max_size=4),
         'entities': st.lists(entity, max_size=5)})
@@ -120,11 +121,19 @@ def viol(clause, **d):
     raise PropertyViolation(clause, d)
 
 
+SPLIT_CHARS = ['/', '/', ':', '|']
+
+
 def run_case(case):
     tmp = tempfile.mkdtemp(prefix='desper-c15-')
+    # the key delimiter of resource maps is configurable (class attribute ResourceMap.split_char): some cases run
+    # with another one - $res{a.b} / $handle{a.b} name the same resources whatever the delimiter is
+    old_split = desper.ResourceMap.split_char
+    desper.ResourceMap.split_char = SPLIT_CHARS[case.get('split', 0)]
     try:
         return _run(case, tmp)
     finally:
+        desper.ResourceMap.split_char = old_split
         shutil.rmtree(tmp, ignore_errors=True)
 
 
@@ -135,7 +144,7 @@ def _run(case, tmp):
     res = {}
     for p in RES_PATHS:
         h = ResHandle(p)
-        root['/'.join(p.split('.'))] = h
+        root[desper.ResourceMap.split_char.join(p.split('.'))] = h
         res[p] = h
 
     def render(arg, as_file):
@@ -202,7 +211,7 @@ def _run(case, tmp):
         with open(path, 'w') as f:
             json.dump(desc, f)
         handle = desper.WorldFromFileHandle(path)
-        key = WORLD_KEYS[case['key']]
+        key = WORLD_KEYS[case['key']].replace('/', desper.ResourceMap.split_char)
         root[key] = handle
         # user code that fails once (a constructor, the load of a referenced resource): the program catches the
         # exception and asks the same handle again - it gets the described world, not a left-over
@@ -231,7 +240,7 @@ def _run(case, tmp):
         if fx.LOG:
             viol('callbacks_ran_before_the_world_was_returned', log=[(k, repr(c)) for k, c, a in fx.LOG])
         expected_types = [desper.OnUpdateProcessor, desper.CoroutineProcessor] + [e['type'] for e in expected_procs]
-        if key.count('/') >= 1 and (facts['ref_res'] or facts['ref_handle']):
+        if key.count(desper.ResourceMap.split_char) >= 1 and (facts['ref_res'] or facts['ref_handle']):
             facts['nested_world_handle_with_resource_refs'] += 1
     else:
         handle = None
@@ -355,6 +364,8 @@ def _run(case, tmp):
                         v['mutated'] = True
         newh = ResHandle('r1-replaced')
         root['r1'] = newh
+        if desper.ResourceMap.split_char != '/':
+            facts['other_key_delimiter'] += 1
         res['r1'] = newh
         handle.clear()
         del fx.LOG[:]
